@@ -32,6 +32,8 @@ type schedScenario struct {
 	Class string // signature class of the scenario
 	// Accept, when set, replaces the comparison with Want: it returns "" or a description of what is wrong
 	Accept func(out []string) string
+	// Race switches on the happens-before race detector over the accesses hooked by instr -race
+	Race bool
 }
 
 type schedWorker struct {
@@ -49,13 +51,30 @@ func (w *schedWorker) Item(idx int, emit func(vf.Violation), st sweep.Stats, sam
 		sort.Strings(want)
 	}
 	wantS := strings.Join(want, ",")
-	ex := &vs.Explorer{UseCache: true, Bound: sc.Bound, MaxExecs: sc.MaxExec, Opts: vs.Options{CapMap: sc.CapMap}}
+	ex := &vs.Explorer{UseCache: true, Bound: sc.Bound, MaxExecs: sc.MaxExec, Opts: vs.Options{CapMap: sc.CapMap, Race: sc.Race}}
 	if sc.Budget > 0 {
 		ex.Deadline = time.Now().Add(sc.Budget)
 	}
 	reported := map[string]bool{}
 	nontrivial := 0
 	ex.Explore(sc.Body, func(x *vs.Exec) {
+		// data races: two conflicting accesses of one execution that no synchronisation orders
+		for _, rc := range x.RaceList() {
+			sig := "race|" + raceSig(rc)
+			if reported[sig] {
+				continue
+			}
+			reported[sig] = true
+			st["race_reports"]++
+			// deterministic like everything else: the same schedule must show the same race again
+			r1 := vs.Run(nil, x.Choices, sc.Body, vs.Options{CapMap: sc.CapMap, Race: true})
+			if !r1.Races[rc] {
+				emit(vf.Violation{Sig: "race|harness-error:replay-not-deterministic", Detail: fmt.Sprintf("%s: %s not reproduced by schedule %v", sc.Name, rc, x.Choices), Replay: map[string]any{"scenario": sc.Name, "choices": x.Choices}})
+				continue
+			}
+			emit(vf.Violation{Sig: sig, Detail: fmt.Sprintf("%s: data race (%s): the two accesses are not ordered by any channel, mutex, wait-group, goroutine-creation or store synchronisation in this execution (schedule of %d choices, replayed with the same result; execution #%d of the search)", sc.Name, rc, len(x.Choices), ex.Execs+1),
+				Replay: map[string]any{"scenario": sc.Name, "choices": x.Choices, "race": rc}})
+		}
 		got := append([]string{}, x.Out...)
 		if !sc.Ordered {
 			sort.Strings(got)
@@ -104,8 +123,8 @@ func (w *schedWorker) Item(idx int, emit func(vf.Violation), st sweep.Stats, sam
 		}
 		reported[sig] = true
 		// before believing it: replay the recorded schedule twice, the observations must be identical
-		r1 := vs.Run(nil, x.Choices, sc.Body, vs.Options{CapMap: sc.CapMap, KeepTrace: true})
-		r2 := vs.Run(nil, x.Choices, sc.Body, vs.Options{CapMap: sc.CapMap})
+		r1 := vs.Run(nil, x.Choices, sc.Body, vs.Options{CapMap: sc.CapMap, KeepTrace: true, Race: sc.Race})
+		r2 := vs.Run(nil, x.Choices, sc.Body, vs.Options{CapMap: sc.CapMap, Race: sc.Race})
 		if r1.Status != x.Status || r2.Status != x.Status || strings.Join(r1.Out, ",") != strings.Join(x.Out, ",") || strings.Join(r2.Out, ",") != strings.Join(x.Out, ",") {
 			emit(vf.Violation{Sig: sc.Class + "|harness-error:replay-not-deterministic", Detail: fmt.Sprintf("%s: schedule %v gave %s/%v, then %s/%v and %s/%v", sc.Name, x.Choices, x.Status, x.Out, r1.Status, r1.Out, r2.Status, r2.Out), Replay: map[string]any{"scenario": sc.Name, "choices": x.Choices}})
 			return
@@ -139,6 +158,18 @@ func (w *schedWorker) Item(idx int, emit func(vf.Violation), st sweep.Stats, sam
 		bd = fmt.Sprintf(", preemption bound completed=%d of %d (iterative: lower bounds are re-explored)", ex.BoundDone, sc.Bound)
 	}
 	sample(fmt.Sprintf("%s: %d executions, %d states, max depth %d, %d outcome(s), capped=%v%s", sc.Name, ex.Execs, ex.States(), ex.MaxDepth, len(ex.Outcomes), ex.Capped, bd))
+}
+
+// raceSig drops the line numbers of a race report (file:function:line): the signature names the two
+// functions, so it survives unrelated edits of the files.
+func raceSig(rc string) string {
+	f := strings.Fields(rc)
+	for i, w := range f {
+		if j := strings.LastIndex(w, ":"); j > 0 && strings.Count(w, ":") == 2 {
+			f[i] = w[:j]
+		}
+	}
+	return strings.Join(f, " ")
 }
 
 func normNumbers(s string) string {
